@@ -4,17 +4,24 @@ package main
 
 import (
 	"fmt"
+	"os"
+	"time"
 	"regexp"
+	"strconv"
 	"strings"
 )
 
 // C17 — Glob patterns match exactly what bash matches.
 //
 // Correspondence streams (model ops): `regexp` (pattern.Regexp text or error class, exhaustive over
-// short patterns), `compiles` (regexp.Compile verdict), `matcher` (internal.ExtendedPatternMatcher).
+// short patterns), `compiles` (regexp.Compile verdict), `matcher` (internal.ExtendedPatternMatcher),
+// `supported` (the harness' port of the Lean predicate that delimits the theorem).
 // Assumption validation: `rx` (Go regexp semantics of the emitted expression = the model's
-// derivative matcher).  Specification stream: `spec` (reference glob semantics vs the real matcher).
-// Spec validation: `bashspec` (reference semantics vs bash).  Search leg: real matcher vs bash.
+// derivative matcher).  Specification stream: `spec`/`specl` (reference glob semantics globMatch vs
+// the real matcher — a difference is a property violation).  Spec validation: `bashspec`
+// (globMatch vs bash; a difference means the reference is wrong).  Search leg, independent of
+// Lean: real matcher vs bash (`[[ s == p ]]`, `case`, and real pathname expansion for the
+// filename modes), c.Fail on a difference.
 func init() { register("C17", c17) }
 
 var c17Alphabet = []string{"*", "?", "[", "]", "!", "^", "-", "\\", "/", ".", "(", ")", "|", "@", "+", ":", "a", "b", "A"}
@@ -47,27 +54,91 @@ func c17Compiles(p string, mode int) string {
 	return "yes"
 }
 
-// c17Tie emits the model-correspondence lines for one pattern and mode.
-func c17Tie(c *Ctx, p string, mode int, deep bool) {
-	line, _, ok := l3Regexp(p, mode)
-	c.Op(fmt.Sprintf("regexp %d %s", mode, hx(p)), line)
-	if ok {
-		c.Op(fmt.Sprintf("compiles %d %s", mode, hx(p)), c17Compiles(p, mode))
+// c17Known lists the documented divergence regions (known findings, see props/C17.notes.md and
+// known-findings.jsonl) a pattern falls into under a mode.  The generator does not send such
+// patterns to the specification stream or to the bash search leg; the canonical witness of every
+// region is replayed from corpus/C17-known.txt on each run.
+func c17Known(in *l3Info, p string, mode int) []string {
+	var k []string
+	if in.dashQuirk {
+		k = append(k, "bracket-dash") // C17-bracket-dash, C17-range-end-escaped
 	}
-	if deep {
-		alpha := c17StrAlpha(p)
-		n := 3
-		strs := l3Enum(alpha, n)
-		c.Op(fmt.Sprintf("rx %d %s %s %d", mode, hx(p), hx(alpha), n), l3RxBits(p, mode, strs))
-		if mode&l3Ext == 0 || mode&l3Entire != 0 {
-			c.Op(fmt.Sprintf("matcher %d %s %s %d", mode, hx(p), hx(alpha), n), l3MatcherBits(p, mode, strs))
+	if in.unterminatedGroup {
+		k = append(k, "unterminated-group") // C17-unterminated-extglob
+	}
+	if in.bareParen {
+		k = append(k, "bare-paren") // C17-bare-paren-in-group
+	}
+	if in.negExt > 0 {
+		// !(…) is handled by extNegatedMatcher only as a single outermost group with a plain
+		// literal prefix and suffix, and only its EntireString|ExtendedOperators reading is right.
+		plain := in.negExt == 1 && !in.negNested && c17PlainAround(p) &&
+			mode&^l3Shortest == l3Entire|l3Ext
+		if !plain {
+			k = append(k, "negext") // C17-negext-wrapper
 		}
 	}
+	if in.leadingDot {
+		k = append(k, "leading-dot") // C17-leading-dot
+	}
+	if in.slashMember {
+		k = append(k, "slash-member") // C17-bracket-matches-slash
+	}
+	if in.slashBracket {
+		k = append(k, "slash-bracket") // C17-slash-bracket-literal
+	}
+	if in.starSwallow {
+		k = append(k, "star-swallow") // C17-globstar-swallows-extop
+	}
+	return k
 }
 
-// c17StrAlpha picks a small alphabet of subject characters relevant to the pattern: its own
-// ordinary characters, the characters it could treat specially, and one outsider.
-func c17StrAlpha(p string) string {
+// c17PlainAround: the text before the first "!(" and after its closing parenthesis consists of
+// ordinary characters only (no backslash, no wildcard, bracket or operator character).
+func c17PlainAround(p string) bool {
+	i := strings.Index(p, "!(")
+	if i < 0 {
+		return false
+	}
+	rs := []rune(p[i+2:])
+	_, rest, status, _ := l3ScanGroup(false, rs)
+	if status != 1 {
+		return false
+	}
+	plain := func(s string) bool { return !strings.ContainsAny(s, "\\*?[]!@+()|") }
+	return plain(p[:i]) && plain(string(rest))
+}
+
+// c17BashOdd lists the regions where bash itself is inconsistent (its matcher depends on the
+// subject, or mis-scans): the bash comparisons skip these.
+func c17BashOdd(in *l3Info, p string, mode int) bool {
+	if in.malformed {
+		return true // bash has no syntax errors: it guesses a literal reading
+	}
+	if in.unclosedBracket && strings.HasSuffix(p, "-") {
+		return true // an unclosed bracket scan that ends in "x-" matches nothing at all
+	}
+	if in.unclosedBracketInGroup || in.starBeforeAtPlus {
+		return true
+	}
+	if strings.Contains(p, "-[:") || strings.Contains(p, "-[.") || strings.Contains(p, "-[=") ||
+		strings.Contains(p, "-\\[") {
+		return true // a class or collating element as the end of a range
+	}
+	return false
+}
+
+// c17GoAnswer is what the real code says for the specification stream.
+func c17GoAnswer(p string, mode int, strs []string) string {
+	r := l3MatcherBits(p, mode, strs)
+	if strings.HasPrefix(r, "err ") && !strings.HasPrefix(r, "err negext") && !strings.HasPrefix(r, "err other") {
+		return "malformed"
+	}
+	return r
+}
+
+// c17StrAlpha picks a small alphabet of subject characters relevant to the pattern.
+func c17StrAlpha(p string, mode int) string {
 	seen := map[rune]bool{}
 	var out []rune
 	add := func(r rune) {
@@ -83,8 +154,14 @@ func c17StrAlpha(p string) string {
 			add(r)
 		}
 	}
-	for _, r := range "a/.b[" {
-		add(r)
+	if mode&l3Files != 0 {
+		for _, r := range "a/.b[" {
+			add(r)
+		}
+	} else {
+		for _, r := range "ab-.[" {
+			add(r)
+		}
 	}
 	return string(out)
 }
@@ -112,15 +189,325 @@ func c17Classify(p string) []string {
 	return tags
 }
 
+// c17Tie emits the model-correspondence lines for one pattern and mode.
+func c17Tie(c *Ctx, p string, mode int, deep bool) {
+	line, _, ok := l3Regexp(p, mode)
+	c.Op(fmt.Sprintf("regexp %d %s", mode, hx(p)), line)
+	if ok {
+		c.Op(fmt.Sprintf("compiles %d %s", mode, hx(p)), c17Compiles(p, mode))
+	}
+	if !deep {
+		return
+	}
+	alpha := c17StrAlpha(p, mode)
+	n := 3
+	strs := l3Enum(alpha, n)
+	c.Op(fmt.Sprintf("rx %d %s %s %d", mode, hx(p), hx(alpha), n), l3RxBits(p, mode, strs))
+	in := l3Analyze(p, mode)
+	sup := "no"
+	if in.supported {
+		sup = "yes"
+	}
+	c.Op(fmt.Sprintf("supported %d %s", mode, hx(p)), sup)
+	if mode&l3Ext != 0 && mode&l3Entire == 0 {
+		return // ExtendedPatternMatcher panics by design
+	}
+	c.Op(fmt.Sprintf("matcher %d %s %s %d", mode, hx(p), hx(alpha), n), l3MatcherBits(p, mode, strs))
+	if mode&l3Entire == 0 {
+		return
+	}
+	known := c17Known(in, p, mode)
+	for _, k := range known {
+		c.Hist["known:"+k]++
+	}
+	if len(known) == 0 {
+		// the property itself: reference semantics = the real matcher
+		c.Op(fmt.Sprintf("spec %d %s %s %d", mode, hx(p), hx(alpha), n), c17GoAnswer(p, mode, strs))
+		if in.supported {
+			c.Hist["spec:supported"]++
+		} else {
+			c.Hist["spec:outside-theorem"]++
+		}
+	}
+}
+
+// ---- bash leg ------------------------------------------------------------------------------
+
+type c17Probe struct {
+	p    string
+	mode int
+	strs []string
+}
+
+// c17BashHow chooses the bash construct for a mode without Filenames.
+func c17BashHow(mode int, alt bool) (how string, extglob bool, prelude string) {
+	prelude = ""
+	if mode&l3NoCase != 0 {
+		prelude = "shopt -s nocasematch\n"
+	}
+	if mode&l3Ext != 0 {
+		if alt {
+			return "case", true, prelude
+		}
+		return "cond", true, prelude
+	}
+	return "case", false, prelude
+}
+
+// c17RunBash evaluates the probes in parallel: bash verdicts, compared with the real matcher
+// (search leg, c.Fail) and handed to the driver for the reference semantics (`bashspec`).
+func c17RunBash(c *Ctx, probes []c17Probe) {
+	type res struct {
+		bash string
+		ok   bool
+	}
+	out := parallelMap(len(probes), 12, func(i int) res {
+		pr := probes[i]
+		how, ext, prelude := c17BashHow(pr.mode, i%2 == 1)
+		args := append([]string{pr.p}, pr.strs...)
+		r := runShell(c, "bash", prelude+l3BashScript(how, ext), args...)
+		if r.TimedOut || r.Status != 0 || len(r.Stdout) != len(pr.strs) {
+			return res{r.Stdout, false}
+		}
+		return res{r.Stdout, true}
+	})
+	for i, pr := range probes {
+		if !out[i].ok {
+			c.Hist["bash:failed"]++
+			continue
+		}
+		c.Hist["bash:patterns"]++
+		c.Hist["bash:pairs"] += len(pr.strs)
+		bash := out[i].bash
+		var hs []string
+		for _, s := range pr.strs {
+			hs = append(hs, hx(s))
+		}
+		c.Op(fmt.Sprintf("bashspec %d %s %s", pr.mode, hx(pr.p), strings.Join(hs, " ")), bash)
+		goBits := c17GoAnswer(pr.p, pr.mode, pr.strs)
+		if goBits == "malformed" {
+			c.Hist["bash:go-malformed"]++
+			continue
+		}
+		if goBits != bash {
+			w, what := c17Witness(pr, goBits, bash)
+			c.Fail(w, what)
+		}
+	}
+}
+
+// c17Witness names the first subject on which the real matcher and the oracle differ.
+func c17Witness(pr c17Probe, goBits, want string) (string, string) {
+	if len(goBits) != len(want) {
+		return fmt.Sprintf("match %d %s %s expect=%c", pr.mode, hx(pr.p), hx(pr.strs[0]), want[0]),
+			fmt.Sprintf("pattern %q mode %d: matcher gives %s, bash decides every subject", pr.p, pr.mode, goBits)
+	}
+	for j := range want {
+		if goBits[j] != want[j] {
+			return fmt.Sprintf("match %d %s %s expect=%c", pr.mode, hx(pr.p), hx(pr.strs[j]), want[j]),
+				fmt.Sprintf("pattern %q against %q (mode %d): mvdan/sh says %c, bash says %c", pr.p, pr.strs[j], pr.mode, goBits[j], want[j])
+		}
+	}
+	return "", ""
+}
+
+// c17Replay replays a corpus line `match <mode> <pattern> <subject> expect=<0|1|malformed>`:
+// the real matcher must give the expected verdict (taken from bash by hand).
+func c17Replay(c *Ctx, line string) {
+	f := strings.Fields(line)
+	if len(f) != 5 || f[0] != "match" || !strings.HasPrefix(f[4], "expect=") {
+		return
+	}
+	mode, err := strconv.Atoi(f[1])
+	if err != nil {
+		return
+	}
+	p, s, want := unhx(f[2]), unhx(f[3]), strings.TrimPrefix(f[4], "expect=")
+	got := c17GoAnswer(p, mode, []string{s})
+	c.Case("replay "+line, true, "replay")
+	c17Tie(c, p, mode, false)
+	if got != want {
+		c.Fail(line, fmt.Sprintf("pattern %q against %q (mode %d): mvdan/sh gives %s, bash gives %s", p, s, mode, got, want))
+	}
+}
+
+// ---- generators ----------------------------------------------------------------------------
+
+// c17GenBracket builds a (mostly valid) bracket expression and one character it should match.
+func c17GenBracket(r *Rand) (string, string) {
+	var sb strings.Builder
+	sb.WriteByte('[')
+	neg := r.Chance(25)
+	if neg {
+		sb.WriteString(r.Pick([]string{"!", "^"}))
+	}
+	hit := ""
+	n := 1 + r.Intn(3)
+	for i := 0; i < n; i++ {
+		switch r.Intn(10) {
+		case 0, 1, 2:
+			lo := rune('a' + r.Intn(4))
+			hi := lo + rune(r.Intn(4))
+			fmt.Fprintf(&sb, "%c-%c", lo, hi)
+			hit = string(lo)
+		case 3:
+			cl := r.Pick([]string{"alpha", "digit", "upper", "lower", "punct", "space", "alnum", "xdigit", "word", "blank"})
+			sb.WriteString("[:" + cl + ":]")
+			hit = map[string]string{"alpha": "q", "digit": "7", "upper": "Q", "lower": "q", "punct": ";", "space": " ", "alnum": "7", "xdigit": "f", "word": "_", "blank": " "}[cl]
+		case 4:
+			ch := r.Pick([]string{"]", "-", "[", "!", "^", "\\"})
+			sb.WriteString("\\" + ch)
+			hit = ch
+		case 5:
+			if i == 0 {
+				sb.WriteString("]")
+				hit = "]"
+			} else {
+				sb.WriteString(".")
+				hit = "."
+			}
+		case 6:
+			if i == n-1 {
+				sb.WriteString("-")
+				hit = "-"
+			} else {
+				sb.WriteString("A-C")
+				hit = "B"
+			}
+		default:
+			ch := r.Pick([]string{"a", "b", "x", "1", ".", "A", "é", "*", "?", "(", "|"})
+			sb.WriteString(ch)
+			hit = ch
+		}
+	}
+	sb.WriteByte(']')
+	if neg {
+		hit = "Z"
+	}
+	return sb.String(), hit
+}
+
+// c17GenPattern builds a structured pattern and a few subjects likely to be near its language.
+func c17GenPattern(r *Rand, mode int, depth int) (string, string) {
+	var pat, hit strings.Builder
+	n := 1 + r.Intn(5)
+	for i := 0; i < n; i++ {
+		switch k := r.Intn(16); {
+		case k < 4:
+			ch := r.Pick([]string{"a", "b", "c", "x", "A", "é", "1", "_", "-", "]", ":"})
+			pat.WriteString(ch)
+			hit.WriteString(ch)
+		case k == 4:
+			pat.WriteString("*")
+			hit.WriteString(r.Pick([]string{"", "a", "xy", ".a"}))
+		case k == 5:
+			pat.WriteString("?")
+			hit.WriteString(r.Pick([]string{"a", "é", "."}))
+		case k == 6 || k == 7:
+			b, h := c17GenBracket(r)
+			pat.WriteString(b)
+			hit.WriteString(h)
+		case k == 8:
+			ch := r.Pick([]string{"*", "?", "[", "\\", "a", "(", "|", ".", "/"})
+			pat.WriteString("\\" + ch)
+			hit.WriteString(ch)
+		case k == 9:
+			pat.WriteString(".")
+			hit.WriteString(".")
+		case k == 10 && mode&l3Files != 0:
+			pat.WriteString("/")
+			hit.WriteString("/")
+		case k == 11 && mode&l3Files != 0:
+			pat.WriteString(r.Pick([]string{"**", "**/", "/**/"}))
+			hit.WriteString(r.Pick([]string{"", "a/", "/a/b/"}))
+		case (k == 12 || k == 13) && mode&l3Ext != 0 && depth < 2:
+			op := r.Pick([]string{"@", "?", "*", "+", "!"})
+			na := 1 + r.Intn(3)
+			var alts, hits []string
+			for j := 0; j < na; j++ {
+				a, h := c17GenPattern(r, mode, depth+1)
+				if r.Chance(15) {
+					a, h = "", ""
+				}
+				alts = append(alts, a)
+				hits = append(hits, h)
+			}
+			pat.WriteString(op + "(" + strings.Join(alts, "|") + ")")
+			if op != "!" {
+				hit.WriteString(hits[r.Intn(len(hits))])
+				if op == "+" || op == "*" {
+					hit.WriteString(hits[r.Intn(len(hits))])
+				}
+			} else {
+				hit.WriteString("zz")
+			}
+		case k == 14:
+			pat.WriteString(r.Pick([]string{"[", "(", ")", "|", "@", "+", "!", "[!", "[a", "{", "}", "$", "^"}))
+		default:
+			ch := r.Pick([]string{"a", "b", "."})
+			pat.WriteString(ch)
+			hit.WriteString(ch)
+		}
+	}
+	return pat.String(), hit.String()
+}
+
+// c17Subjects: the near-miss neighbourhood of a candidate subject.
+func c17Subjects(r *Rand, hit string) []string {
+	rs := []rune(hit)
+	out := []string{hit, "", hit + "a", "a" + hit}
+	if len(rs) > 0 {
+		i := r.Intn(len(rs))
+		out = append(out, string(rs[:i])+string(rs[i+1:]))
+		repl := append([]rune{}, rs...)
+		repl[i] = []rune("aZ./-]")[r.Intn(6)]
+		out = append(out, string(repl))
+		// ASCII-only case change: non-ASCII case folding is outside the model (see notes)
+		out = append(out, l3ASCIIUpper(hit), string(rs[:i])+"/"+string(rs[i:]), "."+hit)
+	}
+	seen := map[string]bool{}
+	var uniq []string
+	for _, s := range out {
+		if !seen[s] && l3ShellSafe(s) {
+			seen[s] = true
+			uniq = append(uniq, s)
+		}
+	}
+	return uniq
+}
+
 func c17(c *Ctx) {
 	c.Rule = "patterns over {* ? [ ] ! ^ - \\ / . ( ) | @ + : a b A}: exhaustive up to length 4 (thorough: 5, sharded) " +
-		"under the mode combinations that change lexing, plus random longer structured patterns; " +
-		"non-trivial = the pattern contains a metacharacter, bracket, escape or group; distinct by (mode, pattern)"
+		"under the mode combinations that change lexing, plus random longer structured patterns (brackets with " +
+		"ranges/classes/escapes, pattern-lists, **, slashes, dots) and a malformed stream; subjects: all strings ≤ 3 over " +
+		"the pattern's own characters, or near misses of an instantiation; non-trivial = the pattern contains a " +
+		"metacharacter, bracket, escape or group; distinct by (mode, pattern)"
+	for _, l := range c.CorpusLines() {
+		c17Replay(c, l)
+	}
 	maxLen := 4
 	if c.Thorough() {
 		maxLen = 5
 	}
+	var probes []c17Probe
+	bashBudget := 260
+	if c.Thorough() {
+		bashBudget = 1500
+	}
 	idx := 0
+	consider := func(p string, mode int, strs []string) {
+		// candidate for the bash leg: EntireString modes without Filenames (real globbing covers those)
+		if mode&l3Entire == 0 || mode&l3Files != 0 || !l3ShellSafe(p) {
+			return
+		}
+		in := l3Analyze(p, mode)
+		if len(c17Known(in, p, mode)) > 0 || c17BashOdd(in, p, mode) {
+			return
+		}
+		if len(probes) < bashBudget {
+			probes = append(probes, c17Probe{p, mode &^ l3Shortest, strs})
+		}
+	}
 	var rec func(prefix string, l int)
 	emit := func(p string) {
 		idx++
@@ -140,6 +527,9 @@ func c17(c *Ctx) {
 			deep := l <= 2 || c.R.Intn(40) == 0
 			c17Tie(c, p, mode, deep)
 			c.Case(fmt.Sprintf("%d %s", mode, p), strings.ContainsAny(p, "*?[\\("), c17Classify(p)...)
+			if c.R.Intn(900) == 0 {
+				consider(p, mode|l3Entire, l3Enum(c17StrAlpha(p, mode), 2))
+			}
 		}
 	}
 	rec = func(prefix string, l int) {
@@ -151,5 +541,50 @@ func c17(c *Ctx) {
 			rec(prefix+a, l+1)
 		}
 	}
+	t0 := time.Now()
 	rec("", 0)
+	fmt.Fprintln(os.Stderr, "exhaustive", time.Since(t0))
+	t0 = time.Now()
+
+	// random longer patterns
+	for i := 0; i < c.N; i++ {
+		lm := c17LexModes[c.R.Intn(len(c17LexModes))]
+		if c.R.Chance(50) {
+			lm = c17LexModes[c.R.Intn(2)] // the modes of `case` and [[ ]]
+		}
+		mode := lm | l3Entire
+		if c.R.Chance(12) {
+			mode |= l3NoCase
+		}
+		var p, hit string
+		if c.R.Chance(12) {
+			p = genFrom(c.R, c17Alphabet, 9)
+			hit = strings.Map(func(r rune) rune {
+				if strings.ContainsRune("*?\\", r) {
+					return -1
+				}
+				return r
+			}, p)
+		} else {
+			p, hit = c17GenPattern(c.R, mode, 0)
+		}
+		c17Tie(c, p, mode, c.R.Chance(25))
+		c.Case(fmt.Sprintf("%d %s", mode, p), strings.ContainsAny(p, "*?[\\("), append(c17Classify(p), "random")...)
+		strs := c17Subjects(c.R, hit)
+		in := l3Analyze(p, mode)
+		if len(c17Known(in, p, mode)) == 0 {
+			var hs []string
+			for _, s := range strs {
+				hs = append(hs, hx(s))
+			}
+			c.Op(fmt.Sprintf("specl %d %s %s", mode, hx(p), strings.Join(hs, " ")), c17GoAnswer(p, mode, strs))
+		}
+		if i%3 == 0 {
+			consider(p, mode, strs)
+		}
+	}
+	fmt.Fprintln(os.Stderr, "random", time.Since(t0))
+	t0 = time.Now()
+	c17RunBash(c, probes)
+	fmt.Fprintln(os.Stderr, "bash", time.Since(t0), len(probes))
 }
